@@ -34,6 +34,14 @@ pub unsafe fn copy_nonoverlapping<T>(src: *const T, dst: *mut T, count: usize) {
 pub unsafe fn copy<T>(src: *const T, dst: *mut T, count: usize) {
     if (dst as usize) <= (src as usize) {
         fwd(src, dst, count)
+    } else if std::mem::size_of::<T>() == 1 {
+        let s = src as *const u8;
+        let d = dst as *mut u8;
+        let mut i = count;
+        while i > 0 {
+            i -= 1;
+            *d.wrapping_add(i) = *s.wrapping_add(i);
+        }
     } else {
         let mut i = count;
         while i > 0 {
@@ -42,3 +50,12 @@ pub unsafe fn copy<T>(src: *const T, dst: *mut T, count: usize) {
         }
     }
 }
+
+/// Switch the checksum model to its cheap fold (see env/fnv); a no-op in the `real` profile,
+/// where the real fnv crate is linked.
+#[cfg(not(feature = "jv_real"))]
+pub fn hash_cheap(on: bool) {
+    fnv::jv_set_cheap(on)
+}
+#[cfg(feature = "jv_real")]
+pub fn hash_cheap(_on: bool) {}
